@@ -4,14 +4,15 @@
  "file": "qbe.c", "function": "funcexpr", "also_functions": ["qbetype", "calcvla"],
  "properties": {"C01": "contract", "C19": "safety"},
  "mode": "harness",
- "replace_calls": {"funcinst": "rec_funcinst"},
- "kind": "proof-const-unwind", "unwind": 2,
+ "replace_calls": {"funcinst": "rec_funcinst", "funcload": "un_funcload", "funcstore": "un_funcstore", "funclval": "un_funclval", "funcinit": "un_funcinit", "convert": "un_convert", "emittype": "un_emittype", "funcjnz": "un_funcjnz"},
+ "cbmc_flags": ["--no-simplify"], "retry_no_simplify": false,
+ "kind": "proof", "unwind": 2,
  "variants": {"TMUL": ["-DV_OP=TMUL"], "TDIV": ["-DV_OP=TDIV"], "TMOD": ["-DV_OP=TMOD"], "TADD": ["-DV_OP=TADD"], "TSUB": ["-DV_OP=TSUB"], "TSHL": ["-DV_OP=TSHL"], "TSHR": ["-DV_OP=TSHR"], "TBAND": ["-DV_OP=TBAND"], "TBOR": ["-DV_OP=TBOR"], "TXOR": ["-DV_OP=TXOR"], "TLESS": ["-DV_OP=TLESS"], "TGREATER": ["-DV_OP=TGREATER"], "TLEQ": ["-DV_OP=TLEQ"], "TGEQ": ["-DV_OP=TGEQ"], "TEQL": ["-DV_OP=TEQL"], "TNEQ": ["-DV_OP=TNEQ"]},
  "canary_variant": "TSHR",
  "link_repo": ["type.c"],
  "timeout": 200,
  "replay": false,
- "assumes": ["funcexpr is recursive: harness-enforced (PRE assumed, POST asserted around the real call; no DFCC frame check), shape fixed to one EXPRBINARY node over two EXPRTEMP leaves (operands already evaluated), so the recursion depth is 1 (unwind 2, unwinding assertions on)",
+ "assumes": ["funcexpr is recursive: this is the inductive step of a structural induction (DESIGN 2.3.7a). The real body is verified for one EXPRBINARY node; its INNER recursive calls are redirected to the stand-in hyp_funcexpr() = the induction hypothesis for operands that are already evaluated (EXPRTEMP leaf: asserted; yields its temporary, emits nothing). Harness-enforced (PRE assumed, POST asserted around the real call; no DFCC frame check: under DFCC CBMC loses the points-to set of e->u.binary.l). The redirection is done by the preprocessor (funcexpr_redirect.h) because vcheck cannot sequence two --replace-calls passes and --enforce-contract-rec hangs in symex on this function; /repo is not edited and the outer body is the real text",
              "IL builder: funcinst appends exactly the instruction it is given and returns its fresh result temporary; QBE executes it with the meaning of spec/qbe_sem.h (stubs/il_rec.c)",
              "operand types as mkbinaryexpr leaves them: arithmetic/bitwise/comparison operands both of the common real type (size 4 or 8 integers after promotion, float, double) or both pointers; pointer +- integer as (pointer, unsigned long already scaled); shifts: both promoted separately, result type = left type; result type int for comparisons",
              "long double operands are outside the domain (every producer of a long double value is supposed to diagnose; see QBE.convert.ldouble)",
@@ -20,7 +21,9 @@
              "floating operators at opcode level (instruction, class, operand order)"]
 }
 */
+#include "funcexpr_redirect.h"      /* inner funcexpr(...) calls -> hyp_funcexpr(...), definition untouched */
 #include "qbe.c"
+#undef funcexpr
 #include "verif.h"
 #include "c_arith.h"
 #include "qbe_sem.h"
@@ -34,20 +37,28 @@ bool g_sg, g_rsg;           /* their signedness (pointers: unsigned) */
 bool g_flt, g_ptr;          /* left operand floating / pointer */
 int g_op;
 struct value *g_lp, *g_rp;
+struct expr *g_el, *g_er;   /* the two operand nodes */
 
 #define ISARITH(op) ((op) == TMUL || (op) == TDIV || (op) == TMOD || (op) == TADD || (op) == TSUB || \
                      (op) == TBAND || (op) == TBOR || (op) == TXOR)
 #define ISSHIFT(op) ((op) == TSHL || (op) == TSHR)
 #define ISCMP(op)   ((op) == TLESS || (op) == TGREATER || (op) == TLEQ || (op) == TGEQ || (op) == TEQL || (op) == TNEQ)
-#define LT (e->u.binary.l->type)
-#define RT (e->u.binary.r->type)
+/* the operand nodes are named through ghosts: CBMC represents `e->u` by its first widest member (string: {char *,
+   size_t}), so a pointer read back from u.binary.r has lost its provenance and cannot be dereferenced (pointer
+   comparison still works) */
+#define LT (g_el->type)
+#define RT (g_er->type)
 #define INT48(t) (ISINTT(t) && ((t)->size == 4 || (t)->size == 8))
 
+#define LEAF (e->kind == EXPRTEMP)
+#define NODE (e->kind == EXPRBINARY)
+
 #define PRE(X) \
-	X(f != 0 && e != 0 && e->kind == EXPRBINARY && (int)e->op == g_op) \
+	X(f != 0 && e != 0 && NODE && (int)e->op == g_op) \
 	X(ISARITH(g_op) || ISSHIFT(g_op) || ISCMP(g_op)) \
-	X(e->u.binary.l->kind == EXPRTEMP && e->u.binary.r->kind == EXPRTEMP) \
-	X(e->u.binary.l->u.temp == g_lp && e->u.binary.r->u.temp == g_rp && g_lp != 0 && g_rp != 0 && g_lp != g_rp) \
+	X(e->u.binary.l == g_el && e->u.binary.r == g_er && g_el != 0 && g_er != 0 && g_el != g_er) \
+	X(g_el->kind == EXPRTEMP && g_er->kind == EXPRTEMP) \
+	X(g_el->u.temp == g_lp && g_er->u.temp == g_rp && g_lp != 0 && g_rp != 0 && g_lp != g_rp) \
 	X(g_lp->kind == VALUE_TEMP && g_lp->u.i == g_l && g_rp->kind == VALUE_TEMP && g_rp->u.i == g_r) \
 	X(INT48(LT) || ISPTRT(LT) || ISFLTT(LT)) \
 	X(g_flt == ISFLTT(LT) && g_ptr == ISPTRT(LT)) \
@@ -78,45 +89,67 @@ struct value *g_lp, *g_rp;
 
 #define POST(X) \
 	/* one instruction, on the two operand temporaries in source order, whose result is the value of the expression */ \
-	X(HRET != 0 && rec.n == 1 && LAST.arg[0] == g_lp && LAST.arg[1] == g_rp && HRET == LAST.resp) \
-	X(!rec.overflow && rec.nload == 0 && rec.nstore == 0) \
+	X(IMP(NODE, HRET != 0 && rec.n == 1 && LAST.arg[0] == g_lp && LAST.arg[1] == g_rp && HRET == LAST.resp)) \
+	X(IMP(NODE, !rec.overflow && rec.nload == 0 && rec.nstore == 0)) \
 	/* result class: word for comparisons (int), else the class of the result type */ \
-	X(IMP(ISCMP(g_op), LAST.cls == 'w')) \
-	X(IMP(!ISCMP(g_op) && INTOP, LAST.cls == (g_sz == 8 ? 'l' : 'w'))) \
-	X(IMP(!ISCMP(g_op) && g_flt, LAST.cls == FCLS)) \
+	X(IMP(NODE && ISCMP(g_op), LAST.cls == 'w')) \
+	X(IMP(NODE && !ISCMP(g_op) && INTOP, LAST.cls == (g_sz == 8 ? 'l' : 'w'))) \
+	X(IMP(NODE && !ISCMP(g_op) && g_flt, LAST.cls == FCLS)) \
 	/* integers and pointers, value level: whenever C defines the result, the instruction is defined and computes it */ \
-	X(IMP(INTOP && g_op != TDIV && g_op != TMOD && !ISSHIFT(g_op), rec.ok && !rec.nonint)) \
-	X(IMP(INTOP && g_op == TMUL, RESV == spec_mul(L, R, g_sz, g_sg))) \
-	X(IMP(INTOP && g_op == TADD, RESV == spec_add(L, R, g_sz, g_sg))) \
-	X(IMP(INTOP && g_op == TSUB, RESV == spec_sub(L, R, g_sz, g_sg))) \
-	X(IMP(INTOP && g_op == TBAND, RESV == spec_and(L, R, g_sz, g_sg))) \
-	X(IMP(INTOP && g_op == TBOR, RESV == spec_or(L, R, g_sz, g_sg))) \
-	X(IMP(INTOP && g_op == TXOR, RESV == spec_xor(L, R, g_sz, g_sg))) \
-	X(IMP(INTOP && g_op == TDIV && DIVOK, rec.ok && RESV == spec_div(L, R, g_sz, g_sg))) \
-	X(IMP(INTOP && g_op == TMOD && DIVOK, rec.ok && RESV == spec_mod(L, R, g_sz, g_sg))) \
-	X(IMP(INTOP && g_op == TSHL && SHOK, rec.ok && RESV == spec_shl(L, R, g_sz, g_sg))) \
-	X(IMP(INTOP && g_op == TSHR && SHOK, rec.ok && RESV == spec_shr(L, R, g_sz, g_sg))) \
-	X(IMP(INTOP && g_op == TLESS, RESI == spec_lt(L, R, g_sg))) \
-	X(IMP(INTOP && g_op == TGREATER, RESI == spec_lt(R, L, g_sg))) \
-	X(IMP(INTOP && g_op == TLEQ, RESI == spec_le(L, R, g_sg))) \
-	X(IMP(INTOP && g_op == TGEQ, RESI == spec_le(R, L, g_sg))) \
-	X(IMP(INTOP && g_op == TEQL, RESI == (L == R))) \
-	X(IMP(INTOP && g_op == TNEQ, RESI == (L != R))) \
+	X(IMP(NODE && INTOP && g_op != TDIV && g_op != TMOD && !ISSHIFT(g_op), rec.ok && !rec.nonint)) \
+	X(IMP(NODE && INTOP && g_op == TMUL, RESV == spec_mul(L, R, g_sz, g_sg))) \
+	X(IMP(NODE && INTOP && g_op == TADD, RESV == spec_add(L, R, g_sz, g_sg))) \
+	X(IMP(NODE && INTOP && g_op == TSUB, RESV == spec_sub(L, R, g_sz, g_sg))) \
+	X(IMP(NODE && INTOP && g_op == TBAND, RESV == spec_and(L, R, g_sz, g_sg))) \
+	X(IMP(NODE && INTOP && g_op == TBOR, RESV == spec_or(L, R, g_sz, g_sg))) \
+	X(IMP(NODE && INTOP && g_op == TXOR, RESV == spec_xor(L, R, g_sz, g_sg))) \
+	X(IMP(NODE && INTOP && g_op == TDIV && DIVOK, rec.ok && RESV == spec_div(L, R, g_sz, g_sg))) \
+	X(IMP(NODE && INTOP && g_op == TMOD && DIVOK, rec.ok && RESV == spec_mod(L, R, g_sz, g_sg))) \
+	X(IMP(NODE && INTOP && g_op == TSHL && SHOK, rec.ok && RESV == spec_shl(L, R, g_sz, g_sg))) \
+	X(IMP(NODE && INTOP && g_op == TSHR && SHOK, rec.ok && RESV == spec_shr(L, R, g_sz, g_sg))) \
+	X(IMP(NODE && INTOP && g_op == TLESS, RESI == spec_lt(L, R, g_sg))) \
+	X(IMP(NODE && INTOP && g_op == TGREATER, RESI == spec_lt(R, L, g_sg))) \
+	X(IMP(NODE && INTOP && g_op == TLEQ, RESI == spec_le(L, R, g_sg))) \
+	X(IMP(NODE && INTOP && g_op == TGEQ, RESI == spec_le(R, L, g_sg))) \
+	X(IMP(NODE && INTOP && g_op == TEQL, RESI == (L == R))) \
+	X(IMP(NODE && INTOP && g_op == TNEQ, RESI == (L != R))) \
 	/* float / double, opcode level (QBE reference: add sub mul div on s/d; c{lt,gt,le,ge,eq,ne}{s,d}: ordered \
 	   comparisons false on NaN, ne true on NaN, as 6.5.8p6/6.5.9p3 + IEEE 754 annex F require) */ \
-	X(IMP(g_flt && g_op == TMUL, LAST.op == IMUL)) \
-	X(IMP(g_flt && g_op == TDIV, LAST.op == IDIV)) \
-	X(IMP(g_flt && g_op == TADD, LAST.op == IADD)) \
-	X(IMP(g_flt && g_op == TSUB, LAST.op == ISUB)) \
-	X(IMP(g_flt && g_op == TLESS, FOP(ICLTS, ICLTD))) \
-	X(IMP(g_flt && g_op == TGREATER, FOP(ICGTS, ICGTD))) \
-	X(IMP(g_flt && g_op == TLEQ, FOP(ICLES, ICLED))) \
-	X(IMP(g_flt && g_op == TGEQ, FOP(ICGES, ICGED))) \
-	X(IMP(g_flt && g_op == TEQL, FOP(ICEQS, ICEQD))) \
-	X(IMP(g_flt && g_op == TNEQ, FOP(ICNES, ICNED))) \
+	X(IMP(NODE && g_flt && g_op == TMUL, LAST.op == IMUL)) \
+	X(IMP(NODE && g_flt && g_op == TDIV, LAST.op == IDIV)) \
+	X(IMP(NODE && g_flt && g_op == TADD, LAST.op == IADD)) \
+	X(IMP(NODE && g_flt && g_op == TSUB, LAST.op == ISUB)) \
+	X(IMP(NODE && g_flt && g_op == TLESS, FOP(ICLTS, ICLTD))) \
+	X(IMP(NODE && g_flt && g_op == TGREATER, FOP(ICGTS, ICGTD))) \
+	X(IMP(NODE && g_flt && g_op == TLEQ, FOP(ICLES, ICLED))) \
+	X(IMP(NODE && g_flt && g_op == TGEQ, FOP(ICGES, ICGED))) \
+	X(IMP(NODE && g_flt && g_op == TEQL, FOP(ICEQS, ICEQD))) \
+	X(IMP(NODE && g_flt && g_op == TNEQ, FOP(ICNES, ICNED))) \
 	/* operands only read */ \
-	X(g_lp->u.i == g_l && g_rp->u.i == g_r && e->kind == EXPRBINARY) \
-	CANARY(X, !(g_op == TSHR && g_sz == 4 && g_sg && g_r == 3))
+	X(IMP(NODE, g_lp->u.i == g_l && g_rp->u.i == g_r && e->kind == EXPRBINARY)) \
+	CANARY(X, !(NODE && g_op == TSHR && g_sz == 4 && g_sg && g_r == 3))
+
+/* CBMC 6.11's expression simplifier mis-rewrites `e->u.binary.l->type` (byte_extract from the union's FIRST member
+   `ident`, which is only 8 bytes wide: the value read back is NULL), so this unit runs with --no-simplify.  Without
+   the simplifier symex cannot prune the other cases of funcexpr's switch; the callees that only those cases use are
+   replaced by stubs that assert false (sound: reaching one is a failed obligation). */
+#define UNREACHED(what) __CPROVER_assert(0, what " reached from an EXPRBINARY node over evaluated operands")
+struct value *un_funcload(struct func *f, struct type *t, struct lvalue lval) { UNREACHED("funcload"); return 0; }
+struct value *un_funcstore(struct func *f, struct type *t, enum typequal tq, struct lvalue lval, struct value *v) { UNREACHED("funcstore"); return 0; }
+struct lvalue un_funclval(struct func *f, struct expr *e) { struct lvalue lv = {0}; UNREACHED("funclval"); return lv; }
+void un_funcinit(struct func *f, struct decl *d, struct init *init, bool hasinit) { UNREACHED("funcinit"); }
+struct value *un_convert(struct func *f, struct type *dst, struct type *src, struct value *l) { UNREACHED("convert"); return 0; }
+void un_emittype(struct type *t) { UNREACHED("emittype"); }
+void un_funcjnz(struct func *f, struct value *v, struct type *t, struct block *l1, struct block *l2) { UNREACHED("funcjnz"); }
+
+/* induction hypothesis for the operands (stands for the inner recursive calls) */
+struct value *
+hyp_funcexpr(struct func *f, struct expr *e)
+{
+	__CPROVER_assert(e == g_el || e == g_er, "recursive call on one of the two operand nodes");
+	return e == g_el ? g_el->u.temp : g_er->u.temp;
+}
+
 
 void
 harness(void)
@@ -156,7 +189,7 @@ harness(void)
 
 	g_no_error = 1;        /* every operator/type combination admitted by PRE is valid C: no diagnostic may be reached */
 	g_op = op;
-	g_l = in_l; g_r = in_r; g_lp = &lv; g_rp = &rv;
+	g_l = in_l; g_r = in_r; g_lp = &lv; g_rp = &rv; g_el = &el; g_er = &er;
 	g_sz = tl.size; g_rsz = er.type->size;
 	g_sg = in_kind != TYPEPOINTER && tl.u.basic.issigned;
 	g_rsg = er.type->kind != TYPEPOINTER && er.type->u.basic.issigned;
